@@ -2,6 +2,7 @@
 //! token-level mutants) through parse -> print -> re-parse -> print, plus evaluation of every accepted text.
 //!
 //! `vtok tokens <K> <first-lo> <first-hi> [eval]`  all strings of 1..K tokens whose first token index is in [lo,hi)
+//! `vtok exprtokens <K> <first-lo> <first-hi> [eval]` the same over the expression alphabet, `a` and `b` bound
 //! `vtok bytes <L> <first-lo> <first-hi> [eval]`   all strings of 1..L elements of the byte alphabet, same sharding
 //! `vtok bytes2 <lo> <hi>`                         all 2-byte strings whose first byte is in [lo,hi) (and 1-byte strings)
 //! `vtok file <programs.jsonl> [mutate]`           every program (one JSON string per line) and, with `mutate`, every
@@ -20,6 +21,16 @@ pub const TOKENS: [&str; 66] = [
     "break", "continue", "return", "throw", "try", "catch", "finally", "new", "delete", "typeof", "this", "super", "import", "export",
     "static", "get", "#p", "*", "-", "++", "!", "\n",
 ];
+/// second alphabet: operators, unary / keyword operators, division vs regular expression, member access on a number, line breaks.
+/// Strings over it are where the printer has to get spacing and parenthesisation right without any help from explicit parentheses.
+/// The identifiers `a` and `b` are bound (see `EXPR_ENV`) so that the evaluation of a text and of its printed form tells groupings apart.
+pub const TOKENS_EXPR: [&str; 40] = [
+    "a", "b", "1", "'s'", "`t`", "/r/g", "(", ")", "[", "]", "{", "}", ",", ";", ".", "?.", "?", ":", "=", "=>", "+", "-", "++", "--", "!",
+    "typeof", "delete", "new", "in", "instanceof", "**", "*", "/", "<", "==", "&&", "||", "??", "function", "\n",
+];
+/// evaluated (as a script of its own) before a text of the expression alphabet and before its printed form
+const EXPR_ENV: &str = "var a = function () { print('call a'); return a }; a.valueOf = function () { print('va'); return 2 }; a.a = a; a.b = 3; a.r = 5; a.g = 7; a.s = 11; a.t = 13; a[1] = 17; \
+var b = {valueOf: function () { print('vb'); return 3 }, a: 19, b: 23, r: 29, g: 31, 1: 37}; b.self = b; var r = 41, g = 43, s = 47, t = 53;";
 /// one element per lexer branch (multi-byte elements are the encodings of U+2028 and of a Latin-1 letter, and invalid UTF-8 bytes)
 pub const BYTES: [&[u8]; 27] = [
     b"a", b"0", b".", b"e", b"\"", b"'", b"`", b"\\", b"/", b"*", b"=", b"+", b"-", b"(", b")", b"{", b"}", b"[", b"]", b";", b"\n", b" ",
@@ -148,11 +159,15 @@ fn outcome_class(c: &str) -> String {
 }
 
 /// evaluate the text and its printed form; both must end in an allowed outcome and give the same trace
+thread_local! { static USE_EXPR_ENV: std::cell::Cell<bool> = const { std::cell::Cell::new(false) }; }
 fn run_neutral(text: &str, cfg: &vcore::Cfg) -> Value {
     const NEUTRAL: &str = "Function.prototype.toString = function () { return \"function\" };";
     let r = std::panic::catch_unwind(std::panic::AssertUnwindSafe(|| {
         let mut ctx = vcore::make_context(cfg);
         ctx.eval(boa_engine::Source::from_bytes(NEUTRAL.as_bytes())).expect("neutraliser");
+        if USE_EXPR_ENV.with(std::cell::Cell::get) {
+            ctx.eval(boa_engine::Source::from_bytes(EXPR_ENV.as_bytes())).expect("expression environment");
+        }
         let (lines, completion, _) = vcore::eval_in(&mut ctx, text, cfg);
         json!({"lines": lines, "completion": completion})
     }));
@@ -233,6 +248,11 @@ fn main() {
             let toks: Vec<&[u8]> = TOKENS.iter().map(|t| t.as_bytes()).collect();
             enumerate(&toks, b" ", args[1].parse().unwrap(), args[2].parse().unwrap(), args[3].parse().unwrap(), args.get(4).is_some(), true, &mut st);
         }
+        Some("exprtokens") => {
+            USE_EXPR_ENV.with(|c| c.set(true));
+            let toks: Vec<&[u8]> = TOKENS_EXPR.iter().map(|t| t.as_bytes()).collect();
+            enumerate(&toks, b" ", args[1].parse().unwrap(), args[2].parse().unwrap(), args[3].parse().unwrap(), args.get(4).is_some(), true, &mut st);
+        }
         Some("bytes") => {
             enumerate(&BYTES, b"", args[1].parse().unwrap(), args[2].parse().unwrap(), args[3].parse().unwrap(), args.get(4).is_some(), false, &mut st);
         }
@@ -290,7 +310,7 @@ fn main() {
             }
         }
         _ => {
-            eprintln!("usage: vtok tokens|bytes <K> <lo> <hi> [eval] | bytes2 <lo> <hi> | file <jsonl> [mutate]");
+            eprintln!("usage: vtok tokens|exprtokens|bytes <K> <lo> <hi> [eval] | bytes2 <lo> <hi> | file <jsonl> [mutate]");
             std::process::exit(2);
         }
     }
